@@ -26,6 +26,8 @@ from hpstatic.poly import Canon
 from hpstatic.terms import (sym, intern, show, subterms, calls_in, NONE, num, kw)
 from .common import SCATTERER
 
+MUTATION_TARGETS = {'holopy/core/math.py': ['rotation_matrix', 'rotate_points', 'transform_cartesian_to_spherical', 'transform_spherical_to_cartesian', 'transform_cartesian_to_cylindrical', 'transform_cylindrical_to_cartesian', 'transform_cylindrical_to_spherical', 'transform_spherical_to_cylindrical', 'find_transformation_function'], 'holopy/scattering/scatterer/composite.py': ['rotated', 'translated'], 'holopy/scattering/scatterer/scatterer.py': ['translated'], 'holopy/scattering/scatterer/csg.py': ['rotated']}
+
 LEVEL = 'other'
 META = dict(
     claimed=True,
